@@ -3,6 +3,8 @@ import SlipVerif.Lemmas.PrinterPretty
 import SlipVerif.Lemmas.PrinterPrettyRead
 import SlipVerif.Lemmas.PrinterReadBase
 import SlipVerif.Lemmas.Wire6
+import SlipVerif.Lemmas.PrinterReadBaseStruct
+import SlipVerif.Lemmas.PrinterPrettyReadGen
 /-
   C03 — printing then reading gives back an equal object of the same type; pretty printing changes
   only white space.
@@ -244,6 +246,47 @@ theorem print_read_config_independent (hT : TablesOK) (c1 c2 : PCfg) (h1 : CfgOK
   obtain ⟨y2, r2, e2, t2⟩ := print_read_same_type hT c2 h2 x hwf
   exact ⟨y1, y2, r1, r2, e1, e2, by rw [t1, t2]⟩
 
+/-- structure_roundtrip_readbase: the structural induction for text WITHOUT radix marks read with
+    `*read-base*` bound to `*print-base*` (`CfgRB`: base 2..36, `*print-radix*` off, readably, array): any
+    nesting of lists, dotted lists, vectors and arrays over well-formed leaves whose integer leaves do not
+    spell `t` / `nil` in that base (`LeavesOK (NoSpell base)`, see `int_readbase_exceptions`) reads back —
+    integers and ratios through the digit patterns of the base, symbols because the printer bars every name
+    that is a number of base 10 or of the print base, floats because the exponent sign keeps the token out
+    of the integer pattern of every base (also where `d`, `s`, `l`, `e` are digits). -/
+theorem structure_roundtrip_readbase (hT : TablesOK) (cfg : PCfg) (hC : CfgRB cfg) (x : Obj) (hwf : WF x)
+    (hns : LeavesOK (NoSpell cfg.base) x) :
+    (∀ (rest : List Char) (fuel : Nat), termOrEnd rest = true → 3 * osize x + 4 ≤ fuel →
+      read1 cfg.base fuel (printFlat cfg x ++ rest) = .ok (recase cfg.case x, rest)) ∧
+    (∀ (rest : List Char) (fuel : Nat) (acc : List Obj), 3 * osize x + 6 ≤ fuel →
+      readElems cfg.base fuel (printTail cfg x ++ rest) acc = .ok (acc.reverse ++ tailElems (recase cfg.case x), rest)) :=
+  ⟨(struct_roundtrip_readbase hT cfg hC x).1 hwf hns, (struct_roundtrip_readbase hT cfg hC x).2 hwf hns⟩
+
+/-- print_read_roundtrip_readbase: the composite round trip for the second readable family of the grid —
+    `*print-radix*` off, any `*print-base*` 2..36, the text read with `*read-base*` = `*print-base*`: exactly
+    one object, equal to the original, of the same type. -/
+theorem print_read_roundtrip_readbase (hT : TablesOK) (cfg : PCfg) (hC : CfgRB cfg) (x : Obj) (hwf : WF x)
+    (hns : LeavesOK (NoSpell cfg.base) x) :
+    ∃ y, readAll cfg.base (printFlat cfg x) = .ok y ∧ objEq x y = true ∧ typeOf y = typeOf x := by
+  refine ⟨recase cfg.case x, ?_, objEq_recase cfg.case x, (equal_same_type x _ (objEq_recase cfg.case x)).symm⟩
+  have hlen := (size_le_length_arr hT cfg hC.array x).1 hwf
+  have h := (struct_roundtrip_readbase hT cfg hC x).1 hwf hns [] (3 * (printFlat cfg x).length + 4) rfl (by omega)
+  rw [List.append_nil] at h
+  unfold readAll
+  rw [h]
+  rfl
+
+example : CfgRB { base := 16, radix := false, case := .up, readably := true, array := true } :=
+  ⟨by decide, by decide, rfl, rfl, rfl⟩
+example : LeavesOK (NoSpell 16) (.cons (.int 255) (.cons (.sym "face".toList) (.ratio 10 17))) := by
+  simp [LeavesOK, NoSpell]
+  decide
+example : printFlat { base := 16, radix := false } (.cons (.int 255) (.cons (.sym "face".toList) (.ratio 10 17))) =
+    "(ff |face| . a/11)".toList := by decide
+-- the side condition is needed: 29 in base 36 is the token t
+example : ¬ LeavesOK (NoSpell 36) (.cons (.int 29) .nil) := by
+  simp [LeavesOK, NoSpell]
+  decide
+
 -- a non-trivial instance of the hypotheses
 example : CfgOK { base := 16, radix := true, case := .cap, readably := true, array := true } :=
   ⟨by decide, by decide, Or.inl rfl, rfl, rfl⟩
@@ -295,6 +338,42 @@ theorem pretty_margin_independent (hT : TablesOK) (cfg : PCfg) (hC : CfgOK cfg) 
   rw [f1] at f2
   exact f2
 
+/-- pretty_read_roundtrip_readbase: the same for text without radix marks read with `*read-base*` =
+    `*print-base*` (any base 2..36, every margin): the pretty text and the flat text read back to the same
+    object, equal to the original. -/
+theorem pretty_read_roundtrip_readbase (hT : TablesOK) (cfg : PCfg) (hC : CfgRB cfg) (margin : Nat) (x : Obj) (hwf : WF x)
+    (hns : LeavesOK (NoSpell cfg.base) x) :
+    ∃ y, readAll cfg.base (printPretty cfg margin x) = .ok y ∧ readAll cfg.base (printFlat cfg x) = .ok y ∧
+      objEq x y = true ∧ typeOf y = typeOf x := by
+  refine ⟨recase cfg.case x, ?_, ?_, objEq_recase cfg.case x, (equal_same_type x _ (objEq_recase cfg.case x)).symm⟩
+  · have hlen := (pretty_size_le_length_arr hT cfg hC.array margin x).1 hwf 0 0
+    have h := (pretty_struct_roundtrip_gen hT (leafRead_readbase hT cfg hC) margin x).1 hwf hns 0 0 []
+      (3 * (printPretty cfg margin x).length + 4) rfl (by unfold printPretty; omega)
+    rw [List.append_nil] at h
+    unfold readAll
+    unfold printPretty at h ⊢
+    rw [h]
+    rfl
+  · have hlen := (size_le_length_arr hT cfg hC.array x).1 hwf
+    have h := (struct_roundtrip_readbase hT cfg hC x).1 hwf hns [] (3 * (printFlat cfg x).length + 4) rfl (by omega)
+    rw [List.append_nil] at h
+    unfold readAll
+    rw [h]
+    rfl
+
+/-- … and any two right margins give texts that read back to the same object -/
+theorem pretty_margin_independent_readbase (hT : TablesOK) (cfg : PCfg) (hC : CfgRB cfg) (m1 m2 : Nat) (x : Obj) (hwf : WF x)
+    (hns : LeavesOK (NoSpell cfg.base) x) :
+    readAll cfg.base (printPretty cfg m1 x) = readAll cfg.base (printPretty cfg m2 x) := by
+  obtain ⟨y1, h1, f1, _⟩ := pretty_read_roundtrip_readbase hT cfg hC m1 x hwf hns
+  obtain ⟨y2, h2, f2, _⟩ := pretty_read_roundtrip_readbase hT cfg hC m2 x hwf hns
+  rw [h1, h2]
+  rw [f1] at f2
+  exact f2
+
+example : printPretty { base := 16, radix := false } 9 (.cons (.int 255) (.cons (.sym "face".toList) (.cons (.ratio 10 17) .nil))) =
+    "(ff\n |face|\n a/11)".toList := by decide
+
 example : printPretty { base := 10 } 14 (.cons (.sym "alpha".toList) (.cons (.sym "beta".toList) (.cons (.sym "gamma".toList) .nil))) =
     "(alpha beta\n       gamma)".toList := by decide
 
@@ -315,5 +394,15 @@ theorem wire_roundtrip (payload rest : List Nat) (h : payload.length ≤ SlipVer
   simp [this]
 
 example : SlipVerif.Wire6.header 255 = "0000FF".toList ∧ (255 : Nat) ≤ SlipVerif.Wire6.maxMessageSize := by decide
+
+/-- wire_stream_roundtrip: any number of messages (each at most 1 MiB of printed text, counted in bytes)
+    written one after another on one connection are read back in order, and the stream is used up: the
+    header of each message says exactly where the next one starts. -/
+theorem wire_stream_roundtrip (msgs : List (List Nat)) (h : ∀ p ∈ msgs, p.length ≤ SlipVerif.Wire6.maxMessageSize) :
+    SlipVerif.Wire6.readMessages msgs.length (SlipVerif.Wire6.writeAll msgs) = some msgs :=
+  SlipVerif.Wire6.readMessages_writeAll msgs h
+
+example : SlipVerif.Wire6.readMessages 2 (SlipVerif.Wire6.writeAll [[40, 195, 169, 41], [49]]) = some [[40, 195, 169, 41], [49]] := by decide
+example : SlipVerif.Wire6.wireBytes [40, 195, 169, 41] = [48, 48, 48, 48, 48, 52, 40, 195, 169, 41] := by decide
 
 end SlipVerif.Theorems.C03
